@@ -12,7 +12,7 @@ RULE = ('modified proteins of length 1..40 (residue, terminal, labile, static, i
         'that do not straddle a cut) x every named protease and user regexes x missed 0..3 x semi x five return types; '
         'post-condition on digest: each peptide equals the slice of the protein specification, the five return types '
         'agree, the peptide string re-parses to the returned annotation, the subsequence search finds it at its offset, '
-        'zero-missed peptides conserve mass; also the semi-/non-enzymatic sequence generators. signature = (rule kind, '
+        'zero-missed peptides conserve mass; also the semi-/non-enzymatic sequence generators; and histories on one protein object (digest, in-place edit of a residue modification, digest again). signature = (rule kind, '
         'missed, semi, return type, protein modification placements, #peptides bucket); non-trivial = at least one '
         'modification and at least two peptides')
 ASSUMPTIONS = ['the conservation clause is evaluated on proteins without position-less peptide-level annotations '
@@ -92,7 +92,7 @@ def check_peptide(ctx, st, pt, P: Pep, text, span, ann, case, do_find=True):
                                                               'found': idx})
 
 
-def run_case(ctx, st, pt, P: Pep, rule, missed, semi, primary_rt):
+def run_case(ctx, st, pt, P: Pep, rule, missed, semi, primary_rt, held=None):
     text = rp.write(P)
     case = {'pep': rp.to_json(P), 'text': text, 'rule': rule, 'missed': missed, 'semi': semi,
             'return_type': primary_rt}
@@ -105,6 +105,8 @@ def run_case(ctx, st, pt, P: Pep, rule, missed, semi, primary_rt):
             # the protein as text, as a parsed annotation, or as an equal annotation whose modification dictionary
             # and interval list are out of positional order (decoys from reverse(), programmatic construction)
             arg = text if r < 0.6 else pt.parse(text) if r < 0.75 else rp.scrambled(pt, text, ctx.rng)
+            if held is not None:
+                arg = held     # the caller's own protein object, digested before and edited in place since
             # a flag is a flag: semi=1 (from a config file / table column) asks for what semi=True asks for
             list(pt.digest(arg, rule, missed, (1 if semi and r < 0.3 else semi), return_type=rt))
             results[rt] = st.case.get('result')
@@ -223,6 +225,36 @@ def run(ctx):
         else:
             drop_straddling(P, rd.sites(P.seq, rule))
         run_case(ctx, st, pt, P, rule, rng.randint(0, 3), semi, rng.choice(RETURN_TYPES))
+    # one protein object held by the caller: digested, edited in place (a modification moved to another residue or
+    # replaced - the number of modified residues stays the same), digested again; every digest answers for the object
+    # as it is at that moment
+    for _ in range(ctx.n(1200, 20000)):
+        P = gp.gen_pep(rng, small)
+        P.intervals = []
+        if not P.res or len(P.res) >= len(P.seq):
+            continue
+        rule = rng.choice(RULES)
+        try:
+            with ctx.eng.suspend():
+                held = pt.parse(rp.write(P))
+        except Exception:
+            continue
+        rt = rng.choice(RETURN_TYPES)
+        run_case(ctx, st, pt, P, rule, rng.randint(0, 2), False, rt, held=held)
+        for _step in range(rng.randint(1, 2)):
+            i = rng.choice(sorted(P.res))
+            P = P.copy()
+            if rng.random() < 0.6:
+                j = rng.choice([k for k in range(len(P.seq)) if k not in P.res])
+                with ctx.eng.suspend():
+                    moved = held.pop_internal_mod(i)
+                    held.add_internal_mod(j, moved)
+                P.res[j] = P.res.pop(i)
+            else:
+                with ctx.eng.suspend():
+                    held.add_internal_mod(i, 'Methyl')          # append=False: replaces what the residue carried
+                P.res[i] = [rp.M('Methyl', kind='unimod-name', named=True, mono=14.01565, avg=14.0266)]
+            run_case(ctx, st, pt, P, rule, rng.randint(0, 2), False, rng.choice(RETURN_TYPES), held=held)
     # protein-sized inputs (257..300 residues, past the small-integer cache and any block size), terminal modifications
     longc = gp.GenCfg(min_len=257, max_len=300, letters=LETTERS, weights={'int': 2, 'float': 2, 'unimod-name': 3},
                       p_res=0.03, p_unknown=0.0, p_interval=0.0, p_charge=0.0, p_isotope=0.15, p_static=0.2,
